@@ -27,7 +27,7 @@ func init() {
 					c.Params["maxscript"] = 8
 				}
 			}},
-			{Dir: "root", Name: "ZZ_C01_legacy", Variant: "mainnet", Tiers: "thorough", Reach: []string{"end"}, Tweak: chain(ecStubs(true), func(c *sym.HarnessCfg, tier string) { delete(c.Params, "thorough") })},
+			{Dir: "root", Name: "ZZ_C01_legacy", Variant: "encode side", Reach: []string{"end"}, Tweak: ecStubs(true)},
 			{Dir: "root", Name: "ZZ_C01_pubkey", Variant: "mainnet,16 symbolic coordinate bits", Tiers: "thorough", Reach: []string{"end"}, Tweak: chain(ecStubs(true), params(true, "symbytes", 2))},
 		},
 	})
@@ -353,8 +353,8 @@ func init() {
 		"SHA-256 and RIPEMD-160 are uninterpreted functions (same symbol inside the code under test and in the harness reference)",
 		"the CashAddr reference encoder in harness/root/common.go is a correct transcription of the specification",
 		"legacy and public-key harnesses (thorough tier): Base58 is the engine's abstract bijection, secp256k1 is idealised (bchec contract), public-key coordinates are symbolic in their last 2 bytes only",
-	}, []string{"quick tier: legacy Base58Check kinds and raw public keys (thorough only: each costs minutes because every symbolic character doubles the decoder's CashAddr attempts)", "public keys with more than 16 symbolic coordinate bits; legacy addresses on nets other than mainnet", "correctness of the hash primitives"},
-		"quick: all 2^160 / 2^256 hashes (fully symbolic) x 6 nets x {P2PKH,P2SH,SLP forms,P2SH32} x 4 renderings; scripts of 0..3 bytes; concrete spec vectors (selfcheck)", "thorough: + scripts of 0..8 bytes, legacy P2PKH/P2SH on mainnet (hash with <=2 leading zero bytes), public keys in 3 formats on mainnet")
+	}, []string{"DecodeAddress on legacy Base58Check strings is NOT decided (only the encode side: bytes handed to Base58 = version||hash||checksum, payload, network membership): a string of ~34 symbolic Base58 characters costs the decoder's two CashAddr attempts an error exit per character and did not finish in 50 minutes", "raw public keys in the quick tier; public keys with more than 16 symbolic coordinate bits or on nets other than mainnet", "correctness of the hash primitives"},
+		"quick: all 2^160 / 2^256 hashes (fully symbolic) x 6 nets x {P2PKH,P2SH,SLP forms,P2SH32} x 4 renderings; scripts of 0..3 bytes; concrete spec vectors (selfcheck)", "thorough: + scripts of 0..8 bytes, public keys in 3 formats on mainnet")
 	meta("C02", []string{
 		"base58.Decode of a string that is not the output of base58.Encode on this path is abstracted: empty if a character is outside the alphabet, otherwise an arbitrary byte string of any length such a string can decode to (over-approximation; the exact behaviour is established by C07)",
 		"branch feasibility is not queried (lazy mode): infeasible paths only add vacuous obligations",
